@@ -91,6 +91,14 @@ OpSplitSV == \E a \in Pick(SplitSVArgs) :
         kept |-> SplitKeptRegions(B(lab), a[1], a[4]), split |-> SplitSplitRegions(B(lab), a[1], a[4])],
        SplitSV(B(lab), a[1], a[2], a[3], a[4]))
 
+\* SplitSupervoxel whose SplitSupervoxelOp has no run-lengths for this block (the block key is
+\* missing from op.Split): nothing is under the split, every voxel of sv becomes the remain label
+OpSplitSVNoKey == \E a \in Pick({x \in SplitSVArgs : x[4] = {}}) :
+    Do([op |-> "splitsv", nokey |-> TRUE, sv |-> a[1], sl |-> a[2], rl |-> a[3], s |-> {2, 3},
+        res |-> U(SplitSV(B(lab), a[1], a[2], a[3], {})),
+        kept |-> SplitKeptRegions(B(lab), a[1], {}), split |-> {}],
+       SplitSV(B(lab), a[1], a[2], a[3], {}))
+
 OpSplitSVs == \E ts \in Pick(SVMaps) : \E S \in Pick(SplitSets) :
     Do([op |-> "splitsvs", map |-> ts, s |-> S, res |-> U(SplitSVs(B(lab), S, SVFn(ts)))],
        SplitSVs(B(lab), S, SVFn(ts)))
@@ -103,9 +111,18 @@ OpDoSplit == /\ NoDoSplitYet
                           stats |-> {<<l, a[l].s, a[l].r, TouchedRegions(b, S, l)>> : l \in Touched(b, S)}],
                          DoSplit(b, S, a))
 
+\* DoSplitWithStats whose label allocator fails at its k-th call: an error and no block when the
+\* split needs at least k new labels (two per touched supervoxel that has no mapping yet)
+OpDoSplitFail == /\ NoDoSplitYet
+                 /\ \E S \in Pick({{1, 2, 3, 4}}) : \E pre \in Pick(Pres) : \E k \in Pick({1, 2}) :
+                      LET b == B(lab)
+                          need == 2 * Cardinality(Touched(b, S) \ DOMAIN SVFn(pre))
+                      IN  /\ need >= k
+                          /\ Do([op |-> "dosplit", failat |-> k, fails |-> TRUE, s |-> S, pre |-> pre, res |-> lab, stats |-> {}], b)
+
 Next == /\ Steps < Depth
         /\ \/ OpMerge \/ OpReplace \/ OpMap
-           \/ (~Thin /\ (OpSplit \/ OpSplitSV \/ OpSplitSVs \/ OpDoSplit))
+           \/ (~Thin /\ (OpSplit \/ OpSplitSV \/ OpSplitSVNoKey \/ OpSplitSVs \/ OpDoSplit \/ OpDoSplitFail))
 
 vars == <<lab, hist>>
 Spec == Init /\ [][Next]_vars
